@@ -13,6 +13,17 @@ def ok_value(case, impl):
 
 
 PROPS = {
+    "C06": {
+        "topics": ["pref"],
+        "nontrivial": lambda c, i: i.startswith("ok") and "Fixed" not in c,
+        "kernel_slice": {"quick": 400, "thorough": 3000},
+        "rule": "EncodeLength/DecodeLength cases for all 44 registered prefixers: n in 0..1200 (thorough 0..70000) plus every decade/byte boundary up to 2^63-1 "
+                "and random lengths, each with max below/equal/above; all 1-byte and sampled (thorough: all) 2-byte prefix strings, family-alphabet "
+                "wide prefixes, random strings; BER long forms with 0..127 length bytes; non-trivial = distinct case with a variable-length prefixer that succeeds",
+        "trusted_base": COMMON_TB + ["translator: Gen/Prefixers.v lists the live registry (family.field, Inspect())",
+                                     "modelled, validated by correspondence: strconv.Itoa/Atoi/FormatInt/ParseUint, fmt %0*d and %0*s, big.Int.Bytes/SetBytes, binary.BigEndian"],
+        "assumptions": ["lengths are Go ints: 0 <= n <= 2^63-1"],
+    },
     "C07": {
         "topics": ["enc"],
         "nontrivial": lambda c, i: i.startswith("ok x") and len(i) > 6,
